@@ -349,6 +349,37 @@ func TestC13_DER_PKCS8(t *testing.T)   { derMutTest(t, "der-pkcs8", "pkcs8") }
 func TestC13_DER_PKCS7(t *testing.T)   { derMutTest(t, "der-pkcs7", "pkcs7") }
 func TestC13_DER_CFCA(t *testing.T)    { derMutTest(t, "der-cfca", "cfca") }
 
+// TestC13_Ciphers runs the cipher-level group under every dispatch tier
+// (spec.json lists the configurations): seeds, every length 0..96, all byte and
+// structural mutations.
+func TestC13_Ciphers(t *testing.T) {
+	run(t, "ciphers", func(emit func(hcase)) {
+		for _, tg := range groupTargets("cipher") {
+			for _, s := range tg.seeds {
+				emit(hcase{tg.name, "seed", s})
+			}
+			allLengths(func(b []byte) { emit(hcase{tg.name, "tiny", b}) })
+			tinyInputs(func(b []byte) { emit(hcase{tg.name, "tiny", b}) })
+			for _, s := range tg.seeds {
+				byteMutations(s, h.Thorough(), func(kind string, b []byte) { emit(hcase{tg.name, kind, b}) })
+				derMutations(s, h.Thorough(), func(kind string, b []byte) { emit(hcase{tg.name, kind, b}) })
+			}
+		}
+	})
+}
+
+// TestC13_Foreign: every EC public key inside every seed replaced by keys on
+// other curves (the algorithm identifiers keep saying SM2).
+func TestC13_Foreign(t *testing.T) {
+	run(t, "foreign", func(emit func(hcase)) {
+		for _, tg := range targets() {
+			for _, s := range tg.seeds {
+				foreignVariants(s, func(kind string, b []byte) { emit(hcase{tg.name, kind, b}) })
+			}
+		}
+	})
+}
+
 // TestC13_Random composes 1..4 byte-level and structural mutations at random.
 func TestC13_Random(t *testing.T) {
 	curTest.Store(t.Name())
